@@ -39,7 +39,8 @@ FILE_NAMES = ["in file.txt", "b.dat", "c'q.txt"]
 PLAIN_FILE_NAMES = ["b.dat"]
 
 SCALAR_TYPES = ["string", "string", "string", "int", "double", "boolean", "File", "string?", "int?", "enum", "long", "float"]
-COMPOSITE_TYPES = ["string[]", "string[]", "int[]", "File[]", "record", "string[][]", "double[]", "boolean[]"]
+COMPOSITE_TYPES = ["string[]", "string[]", "int[]", "File[]", "record", "string[][]", "double[]"]
+WILD_COMPOSITE_TYPES = COMPOSITE_TYPES + ["boolean[]"]
 
 
 class Pools:
@@ -108,7 +109,7 @@ def gen_binding(rng, P: Pools, t, shell, composite=False, allow_valuefrom=True):
 
 def gen_input(rng, P: Pools, name, shell):
     """-> (input schema dict, job value)"""
-    t = rng.choice(SCALAR_TYPES if rng.random() < 0.55 else COMPOSITE_TYPES)
+    t = rng.choice(SCALAR_TYPES if rng.random() < 0.55 else (WILD_COMPOSITE_TYPES if P.mode == "W" else COMPOSITE_TYPES))
     bound = rng.random() < 0.9
     W = P.mode == "W"
     if t == "record":
@@ -320,8 +321,14 @@ def gen_trigger(rng, probe_path: str, which: str | None = None) -> dict:
             b["position"] = rng.choice([0, 1])
         if rng.random() < 0.3:
             b["prefix"] = rng.choice(PREFIXES)
-        inputs["a"] = {"type": "boolean[]", "inputBinding": b}
-        job["a"] = [rng.random() < 0.5 for _ in range(rng.randint(1, 3))]
+        if rng.random() < 0.3:
+            # items with a binding of their own, none of them true: only the outer prefix is left
+            b["prefix"] = rng.choice(PREFIXES)
+            inputs["a"] = {"type": {"type": "array", "items": "boolean", "inputBinding": {"prefix": rng.choice(PREFIXES)}}, "inputBinding": b}
+            job["a"] = [False] * rng.randint(1, 2)
+        else:
+            inputs["a"] = {"type": "boolean[]", "inputBinding": b}
+            job["a"] = [rng.random() < 0.5 for _ in range(rng.randint(1, 3))]
     elif which == "item-binding-separator":
         ib = {}
         if rng.random() < 0.5:
